@@ -343,6 +343,13 @@ def is_utf8(b):
 
 
 # ----------------------------------------------------------------------------- targeted scenarios
+def numberish_host(rng):
+    """domain-looking hosts whose last label is number-like (the 'ends in a number' rule)"""
+    last = rng.choice(["0X1", "0xAB", "0X", "0x", "0XaB", "0xF", "09", "1", "0x1g", "0X1G", "1e3", "0x.", "0X.", "0XFfAcE123",
+                       "0x0", "00", "0xffffffff", "0X100000000", "1.", "٣"])
+    return (rng.choice(["a.", "foo.bar.", "example.", "1.2.3.4.", "", "A.B.", "x-y."]) + last).encode()
+
+
 def gen_scenario(rng):
     """Shapes that need several ingredients at once (multi-step, two cooperating sites)."""
     k = rng.randrange(10)
@@ -409,8 +416,7 @@ def gen_scenario(rng):
         return inp, None, [rng.choice(pool) for _ in range(rng.randrange(1, 3))]
     if k == 8:
         # hosts whose last label is number-like (ends-in-a-number), upper/lower hex, after lower-casing
-        last = rng.choice(["0X1", "0xAB", "0X", "0x", "0XaB", "0xF", "09", "1", "0x1g", "0X1G", "1e3", "0x.", "0X."])
-        host = rng.choice(["a.", "foo.bar.", "example.", "1.2.3.4.", ""]) + last
+        host = numberish_host(rng).decode()
         tail = rng.choice(["", "/", "/path?q=1#frag", ":80/p", "\t/"])
         scheme = rng.choice(["http", "https", "ws", "ftp", "sc"])
         return (scheme + "://" + host + tail).encode(), None, []
